@@ -407,6 +407,12 @@ func checkC04(c *Ctx) {
 
 	// ---- C04.restore ----
 	checkC04BlockHandle(c)
+	// a BEGIN / SAVEPOINT / COMMIT / ROLLBACK that failed must be reported: a Begin that drops the driver's error
+	// leaves the handle on the plain pool, the block runs in autocommit and the later Rollback undoes nothing
+	// (same rule as C05.errors, restricted to the transaction API)
+	rte := c.Rule("C04.tx-errors", "the error of every driver / save-point call in Begin, Commit, Rollback, SavePoint, RollbackTo and Transaction reaches AddError, an Error field or the caller", 5)
+	rte.Exempt("gorm.(*DB).Transaction$rollback", "best-effort Rollback/RollbackTo in Transaction's deferred closure: the original error or panic is what propagates")
+	checkErrorFlow(c, rte, map[string]bool{"(*gorm.DB).Begin": true, "(*gorm.DB).Commit": true, "(*gorm.DB).Rollback": true, "(*gorm.DB).SavePoint": true, "(*gorm.DB).RollbackTo": true, "(*gorm.DB).Transaction": true})
 
 	// ---- C04.pool-kept ----
 	// inside a transaction the statement's pool is the transaction; library code installs the base pool
